@@ -43,7 +43,7 @@ use mos_core::parser::source::ParsingSource;
 use mos_core::parser::{parse, ParseTree};
 use serde::de::DeserializeOwned;
 use serde::Serialize;
-use std::collections::HashMap;
+use std::collections::{HashMap, HashSet};
 use std::path::{Path, PathBuf};
 use std::sync::atomic::{AtomicUsize, Ordering};
 use std::sync::{Arc, Mutex, MutexGuard};
@@ -81,6 +81,8 @@ pub struct LspContext {
     tree: Option<Arc<ParseTree>>,
     error: Diagnostics,
     codegen: Option<Arc<Mutex<CodegenContext>>>,
+    /// The files for which the most recently published diagnostics were not empty
+    files_with_diagnostics: HashSet<String>,
     parsing_source: Arc<Mutex<LspParsingSource>>,
     shutdown_manager: Arc<Mutex<ShutdownManager>>,
     #[cfg(test)]
@@ -164,6 +166,7 @@ impl LspContext {
             tree: None,
             error: Diagnostics::default(),
             codegen: None,
+            files_with_diagnostics: HashSet::new(),
             parsing_source: Arc::new(Mutex::new(LspParsingSource::new())),
             shutdown_manager: Arc::new(Mutex::new(ShutdownManager::new())),
             #[cfg(test)]
